@@ -67,6 +67,9 @@ def _core(rng, cfg, nt):
             # state captured at an earlier execution of a word must not leak into a later one
             words.append(rng.choice(words[-12:]))
             continue
+        if rng.random() < 0.08:
+            words += G.macro(rng, rng.random() < tb)       # exclusive pairs, IT blocks, SRS/RFE, PUSH/POP ... (state that spans instructions)
+            continue
         if rng.random() < 0.75:
             th = rng.random() < tb
             w = G.vocab_words(rng, th)
@@ -75,6 +78,7 @@ def _core(rng, cfg, nt):
         else:
             w = G.stream_word(rng, tb)
         words.append(w)
+    words = words[:nt]
     events = []
     for _ in range(rng.randrange(0, max(1, nt // 20)) if rng.random() > 0.25 else 0):
         k = rng.random()
